@@ -36,6 +36,10 @@ main(int argc, char** argv)
         const ZixStringView b = zix_substring((const char*)mem + bo, bl);
         const bool r1 = zix_string_view_equals(a, b);
         printf("eq %d", r1 ? 1 : 0);
+        // the empty view constant and the view of a C string
+        const ZixStringView e = zix_empty_string();
+        if (e.length || !e.data || e.data[0] || zix_string_view_equals(e, a) != (al == 0) || !zix_string_view_equals(e, zix_string("")) || zix_string(NULL).length)
+          printf(" SPEC-FAIL:empty-string-view");
         // The answer is about the bytes the views designate NOW: change one byte of `a` and ask again with the very same
         // view values, then restore it and ask a third time.  (A declaration that lets the compiler reuse the first answer
         // - e.g. a "const" function attribute in the header - shows here.)
